@@ -299,6 +299,10 @@ impl BroCatli {
                     return BroCatliResult::NeedsMoreOutput;
                 }
             }
+            if self.last_bytes_len == 2 && index < 8 {
+                // the end marker was all that was left in the second byte: it is empty now
+                self.last_bytes_len = 1;
+            }
             self.last_byte_bit_offset = index;
             assert!(index < 8);
             self.last_byte_sanitized = true;
